@@ -494,7 +494,7 @@ func (b *Broker) SetSuccessThreshold(t EventType, successThreshold int) error {
 		b.graphs[t] = g
 	}
 
-	g.successThreshold = successThreshold
+	g.setSuccessThreshold(successThreshold)
 	return nil
 }
 
@@ -518,7 +518,7 @@ func (b *Broker) SetSuccessThresholdSinks(t EventType, successThresholdSinks int
 		b.graphs[t] = g
 	}
 
-	g.successThresholdSinks = successThresholdSinks
+	g.setSuccessThresholdSinks(successThresholdSinks)
 	return nil
 }
 
